@@ -982,6 +982,17 @@ func gen(r *vh.Rand, tier string) []Scn {
 		if s.SleepMs == 0 {
 			s.SleepMs = 3
 		}
+		if s.Cbk && s.Kind == "e2e" {
+			// Server.Close queues the notice for a client that calls back and then closes the
+			// listener: whether the client still fetches it is schedule dependent (oracle only)
+			for _, ph := range s.Phases {
+				for _, c := range ph {
+					if c == cSrvClose {
+						s.Compare = false
+					}
+				}
+			}
+		}
 		if s.Chm {
 			// an established channel-mode connection outlives its listener: the model's
 			// "reachable" does not cover that, such scenarios are oracle-only
